@@ -154,7 +154,7 @@ pub fn schedule_strategy() -> proptest::strategy::BoxedStrategy<Schedule> {
     let nth = prop_oneof![3 => 0u8..4, 2 => 4u8..60];
     let park = (point, nth, 1u8..40, 1u8..60).prop_map(|(point, nth, events, max_ms)| Park { point, nth, events, max_ms });
     prop_oneof![
-        2 => Just(Schedule::Free),
+        4 => Just(Schedule::Free),
         5 => (any::<u64>(), prop_oneof![Just(20u8), Just(60), Just(140), Just(255)]).prop_map(|(seed, density)| Schedule::Jitter { seed, density }),
         5 => (any::<u64>(), proptest::collection::vec(park, 1..4)).prop_map(|(seed, parks)| Schedule::Park { seed, parks }),
     ]
